@@ -1181,6 +1181,9 @@ class Interp:
                     # path alias: the name denotes the container stored at base[key]; mutations write through
                     key = self.eval(st.value.slice, scope)
                     scope.aliases[tgt.id] = {'base': st.value.value, 'base_txt': ast.unparse(st.value.value), 'key': key, 'stale': False}
+                elif isinstance(st.value, ast.Attribute) and isinstance(v, SV) and v.typ.kind in ('Seq', 'Set', 'Map'):
+                    # the name denotes the container held by an object's attribute: in-place changes are seen through the attribute
+                    scope.aliases[tgt.id] = {'attr': st.value, 'base_txt': ast.unparse(st.value), 'key': None, 'stale': False}
 
     def s_AnnAssign(self, st, scope):
         if st.value is not None:
